@@ -90,6 +90,9 @@ class CircuitGate(Gate):
         if self._circuit.radixes != other._circuit.radixes:
             return False
 
+        if self._circuit.num_operations != other._circuit.num_operations:
+            return False
+
         return all(
             op1.gate == op2.gate and op1.location == op2.location
             for op1, op2 in zip(self._circuit, other._circuit)
